@@ -23,7 +23,8 @@ REQUIRED_THEOREMS = ['CfVerif.C03.' + t for t in (
     'log_element_decoded', 'param_element_decoded', 'fetched_eq_device', 'log_fetched_eq_device', 'param_fetched_eq_device',
     'stale_info_ignored', 'stale_item_ignored', 'fetch_completes', 'toc_eq_device_table', 'lookup_agree', 'complete_name_arity',
     'persistent_marks_eq_device', 'ext_phase_completes', 'param_table_when_connected', 'no_extended_no_queries',
-    'setup_started_once', 'setup_started_once_live_counterexample', 'gen_platform_reports_once', 'gen_type_tables')]
+    'setup_started_once', 'setup_started_once_live_counterexample', 'log_fetcher_started_once', 'version_is_devices',
+    'gen_platform_reports_once', 'gen_type_tables', 'gen_log_reset_guard', 'gen_v2_threshold')]
 TRUSTED = ['harness/corr/c03.py extractor + correspondence', 'harness/sim/crazyflie_device.py (simulated device, link, sync session) and its Lean twin Spec/C03',
            "Python str.decode('ISO-8859-1') is a bijection bytes <-> code points < 256 (names are compared as byte strings)",
            'dict keeps insertion order and overwrites in place; struct.unpack as modelled in Base/Struct']
@@ -177,6 +178,18 @@ def extract(ctx):
         f = X.find(le, fn)
         rets = [ast.unparse(n.value) for n in ast.walk(f) if isinstance(n, ast.Return) and n.value is not None]
         X.expect(rets == ['LogTocElement.types[ident][%d]' % idx], 'LogTocElement.%s: unexpected return %r' % (fn, rets))
+    # Log._new_packet_cb: the guard that starts the download once per refresh (`if not self.toc:` in the reset branch)
+    lcb = X.find(log, 'Log._new_packet_cb')
+    guards = []
+    for n in ast.walk(lcb):
+        if isinstance(n, ast.If) and 'CMD_RESET_LOGGING' in ast.unparse(n.test):
+            for m in n.body:
+                if isinstance(m, ast.If) and any(isinstance(c, ast.Call) and ast.unparse(c.func) == 'TocFetcher' for c in ast.walk(m)):
+                    guards.append(ast.unparse(m.test))
+    X.expect(len(guards) == 1, 'Log._new_packet_cb: expected one guarded TocFetcher(...) creation in the CMD_RESET_LOGGING branch')
+    g.string('logResetGuard', guards[0])
+    lrt = X.find(log, 'Log.refresh_toc')
+    g.strings('logRefreshTocAssign', [ast.unparse(n) for n in ast.walk(lrt) if isinstance(n, ast.Assign) and ast.unparse(n.targets[0]) == 'self.toc'])
     # ---- param.py: ParamTocElement, _ExtendedTypeFetcher, refresh_toc ---------------------------------------
     par = X.parse('cflib/crazyflie/param.py')
     pe = X.find(par, 'ParamTocElement')
